@@ -179,7 +179,11 @@ func (mut *GenericMutableMap[M, T]) flushPending(ctx context.Context, deep bool)
 	stash := mut.stash
 	// if our in-memory edit set contains a checkpoint, we
 	// must stash a copy of |mut.tuples| we can revert to.
-	if mut.tuples.Edits.HasCheckpoint() {
+	// A checkpoint taken on an empty edit set is not visible
+	// to HasCheckpoint, so we also stash when nothing has been
+	// stashed since the last Checkpoint: otherwise Revert could
+	// not undo the writes flushed here.
+	if mut.stash == nil || mut.tuples.Edits.HasCheckpoint() {
 		cp := mut.tuples.Copy()
 		cp.Edits.Revert(ctx)
 		if deep {
